@@ -8,6 +8,7 @@ import Pyunicorn.Lemmas.RandomG
 import Pyunicorn.Lemmas.RandomH
 import Pyunicorn.Lemmas.RandomI
 import Pyunicorn.Lemmas.RandomJ
+import Pyunicorn.Lemmas.RandomK
 /-!
 # C17 — random models and rewirings keep their documented invariants
 
@@ -1004,6 +1005,52 @@ theorem configuration_exact_of_simple (n : Nat) (es : List (Nat × Nat)) (degree
     deg (simplified es) n v = degree v := by
   rw [simplified_of_simple n es hs, deg_linkAny n es hs v, hinc v]
 
+/-! ### round 5: `ErdosRenyi` / `WattsStrogatz` — prescribed link count -/
+
+/-- **the adjacency matrix pyunicorn reads out of an igraph generator** (`ErdosRenyi`,
+`WattsStrogatz`: `np.array(graph.get_adjacency(type=2).data)`): if igraph's graph is simple on `n` nodes
+(its contract — trusted, checked on every call by the harness), the matrix exists (no index out of
+range), is symmetric and loop-free, contains exactly the listed links, every node has as many
+neighbours as incident links, and the matrix has **exactly twice as many ones as the graph has links**. -/
+theorem generator_adjacency_spec (n : Nat) (es : List (Nat × Nat)) (hs : SimpleEdges n es) :
+    ∃ F, fromEdges n es = some F ∧ (∀ a b, F a b = F b a) ∧ (∀ a, F a a = false) ∧
+      (∀ a b, F a b = true ↔ ∃ e ∈ es, sameLink e (a, b)) ∧
+      (∀ a b, F a b = true → a < n ∧ b < n) ∧
+      (∀ v, deg F n v = inc es v) ∧ total F n n = 2 * (es.length : Int) := by
+  refine ⟨linkAny es, fromEdges_some n es (fun e he => ⟨(hs.1 e he).1, (hs.1 e he).2.1⟩),
+    ?_, ?_, linkAny_iff es, ?_, deg_linkAny n es hs, total_linkAny n es hs⟩
+  · intro a b
+    simp only [linkAny]
+    congr 1; funext e; grind
+  · intro a
+    cases hc : linkAny es a a with
+    | false => rfl
+    | true =>
+      obtain ⟨e, he, hse⟩ := (linkAny_iff es a a).1 hc
+      have := (hs.1 e he).2.2
+      simp only [sameLink] at hse; omega
+  · intro a b hab
+    obtain ⟨e, he, hse⟩ := (linkAny_iff es a b).1 hab
+    have := hs.1 e he
+    simp only [sameLink] at hse; omega
+
+/-- **`Network.ErdosRenyi`: exactly the prescribed number of links.**  The call is refused
+(`ValueError`) exactly when both or neither of `link_probability` / `n_links` are given; with
+`n_links` alone igraph is asked for `m = n_links` links, and for the simple graph with that many links it
+returns (contract) the adjacency matrix has `2·n_links` ones, is symmetric and loop-free.
+(`Network.WattsStrogatz(N, k, p)`: the same read-out; igraph's ring lattice rewiring keeps `N·k` links.) -/
+theorem erdosRenyi_spec (hasP hasM : Bool) (n nLinks : Nat) (es : List (Nat × Nat))
+    (hs : SimpleEdges n es) (hm : erdosRenyiCall hasP hasM = some .byLinkCount → es.length = nLinks) :
+    (erdosRenyiCall hasP hasM = none ↔ hasP = hasM) ∧
+    (erdosRenyiCall hasP hasM = some .byLinkCount ↔ (hasP = false ∧ hasM = true)) ∧
+    ∃ F, fromEdges n es = some F ∧ (∀ a b, F a b = F b a) ∧ (∀ a, F a a = false) ∧
+      (erdosRenyiCall hasP hasM = some .byLinkCount → total F n n = 2 * (nLinks : Int)) := by
+  obtain ⟨F, hF, sym, lf, -, -, -, htot⟩ := generator_adjacency_spec n es hs
+  refine ⟨by cases hasP <;> cases hasM <;> simp [erdosRenyiCall],
+    by cases hasP <;> cases hasM <;> simp [erdosRenyiCall], F, hF, sym, lf, ?_⟩
+  intro hc
+  rw [htot, hm hc]
+
 /-! ### draws: "index in range" from the RNG's contract `0 ≤ u < 1` -/
 
 /-- **`np.floor(rd.random() * E)` and `int(random.random() * N)`** (the generated expressions)
@@ -1617,5 +1664,13 @@ example : ∃ k, rndQ 3 9 = 2 * k * 2 ^ gridShift 3 (9 : Rat).floor.toNat :=
 16777218; both are at distance 1 and `rnd32` returns the even one -/
 example : rnd32 16777217 = 16777216 ∧ (4194304 : Int).natAbs < 2 ^ 24 ∧ (8388609 : Int).natAbs < 2 ^ 24
     ∧ (4194304 : Int) * 2 ^ 2 = 16777216 ∧ (8388609 : Int) * 2 ^ 1 = 16777218 := by decide +kernel
+
+/-- `generator_adjacency_spec` / `erdosRenyi_spec`: a path on 4 nodes is a simple edge list; the dispatch
+has all three outcomes -/
+example : SimpleEdges 4 [(0, 1), (2, 1), (2, 3)] := by
+  refine ⟨by simp, ?_⟩
+  simp [sameLink]
+example : erdosRenyiCall true false = some .byProbability ∧ erdosRenyiCall false true = some .byLinkCount
+    ∧ erdosRenyiCall true true = none ∧ erdosRenyiCall false false = none := by decide
 
 end Pyunicorn.Random
